@@ -39,10 +39,11 @@ EPS_CIRC = 1e-9
 #: events closer than EDGE_BAND to an edge of their triangle may be located in either
 #: adjacent triangle by scipy's walk (its tolerance is 100 eps in barycentric units)
 EDGE_BAND = 1e-12
-#: triangles flatter than this (height, normalised units) are "slivers": scipy's
-#: barycentric transform is ill-conditioned there (errors ~ eps / height) and points ON
-#: their edges are sometimes not located at all (NaN) - a property of the trusted library
-SLIVER_H = 1e-6
+#: scipy's barycentric coordinates carry a rounding error of about eps * |x| / height,
+#: which exceeds its own containment tolerance for triangles thinner than ~1e-2; a point
+#: ON an edge / vertex (closer than EDGE_BAND) can then be rejected by both adjacent
+#: triangles and come back as NaN (observed about once per 1e5 such points) - a property
+#: of the trusted library, not judged
 #: a position error of this size (normalised coordinates) is never judged; it enters the
 #: value tolerance through the gradient of the local interpolant (sliver triangles of
 #: height 1e-8 exist in the shipped tables)
@@ -442,7 +443,7 @@ class LutRef:
           0 ok value, 1 ok NaN (outside), 2 band: NaN-ness not judged,
           3 ok via neighbouring triangle (edge/vertex), 4 ok via flipped diagonal,
           5 model has no triangle (not judged),
-          7 NaN on an edge of a sliver triangle (scipy point location, not judged),
+          7 NaN on a triangle edge / vertex (scipy point location, not judged),
           -1 value mismatch, -2 NaN inside the support, -3 number outside the support
         """
         ev = self.evaluate(xn, yn)
@@ -463,8 +464,8 @@ class LutRef:
         inside_nan = todo & isnan
         verdict[inside_nan] = -2
         with np.errstate(invalid="ignore"):
-            sliver_edge = inside_nan & (ev["edge_dist"] < EDGE_BAND) & (ev["hmin_nbhd"] < SLIVER_H)
-        verdict[sliver_edge] = 7
+            on_edge = inside_nan & (ev["edge_dist"] < EDGE_BAND)
+        verdict[on_edge] = 7
         nomodel = todo & ~isnan & (ev["tri"] < 0)
         verdict[nomodel] = 5
         cmp_ = todo & ~isnan & (ev["tri"] >= 0)
